@@ -1000,3 +1000,23 @@ func runReplay(c *Config, file string) int {
 	fmt.Printf("NOT REPRODUCED property=%s harness=%s assertion=%q (%s)\n", rf.Property, rf.Harness, rf.Label, res)
 	return 0
 }
+
+
+func listFuncs(c *Config, pat string) int {
+	l, err := load(c)
+	if err != nil {
+		fmt.Println(err)
+		return 2
+	}
+	var names []string
+	for f := range ssautil.AllFunctions(l.prog) {
+		if strings.Contains(f.String(), pat) {
+			names = append(names, f.String()+"  "+f.Signature.String())
+		}
+	}
+	sort.Strings(names)
+	for _, n := range names {
+		fmt.Println(n)
+	}
+	return 0
+}
